@@ -175,10 +175,26 @@ func (d *Describer) val(v ssa.Value, depth int) string {
 	return fmt.Sprintf("?%T", v)
 }
 
+// overwriting mutators of kyber.Point / kyber.Scalar: the result is a function
+// of the operands only, whichever scratch object receives it.
+var overwriting = map[string]bool{"Add": true, "Sub": true, "Neg": true, "Mul": true, "Set": true, "Div": true, "Inv": true,
+	"SetBytes": true, "SetInt64": true, "Zero": true, "One": true}
+
 func (d *Describer) call(c *ssa.CallCommon, depth int) string {
 	var args []string
 	if c.IsInvoke() {
-		args = append(args, d.val(c.Value, depth+1))
+		drop := false
+		if ts := types.TypeString(c.Value.Type(), nil); (ts == core.ModPath+".Point" || ts == core.ModPath+".Scalar") && overwriting[c.Method.Name()] {
+			drop = true
+			for _, a := range c.Args {
+				if isNilConst(a) {
+					drop = false // Mul(s, nil): the receiver's group selects the base point
+				}
+			}
+		}
+		if !drop {
+			args = append(args, d.val(c.Value, depth+1))
+		}
 	}
 	for _, a := range c.Args {
 		args = append(args, d.val(a, depth+1))
